@@ -118,8 +118,15 @@ Writes(w, e) ==
        [] OTHER           -> <<WEl("iq", "foreign", "result", id, to, FALSE)>>
 
 (* handler program: how much of the element it reads ("none" | "one" | "all" |       *)
-(* "over" = tries to read past the end), what it writes, how it returns              *)
-Prog7(read, w, ret) == [read |-> read, w |-> w, ret |-> ret]
+(* "over" = tries to read past the end), what it writes, how it returns ("ok" | "err" *)
+(* = some error | "stanzaerr" = a stanza error value, which Serve's documentation    *)
+(* says is sent to the peer), and what it does to the start element it was handed BY *)
+(* POINTER before it returns (handlers recycle it for their reply): "none" | "type"  *)
+(* (type := result) | "name" (renamed to message) | "id" (another id) | "from"       *)
+(* (another sender) | "clear" (all attributes dropped).  The reply rule is about the *)
+(* request AS IT ARRIVED: no reference function below looks at mut.                  *)
+Prog7(read, w, ret, mut) == [read |-> read, w |-> w, ret |-> ret, mut |-> mut]
+Muts == {"none", "type", "name", "id", "from", "clear"}
 
 (* THE reply to request e: a top-level iq in the stream's namespace, type result or  *)
 (* error, carrying the request's id                                                  *)
@@ -138,6 +145,10 @@ C07_Free(e) == e.kind = "iq" /\ ~C07_Needs(e) /\ e.type \notin {"result", "error
 (* own bare address may have been presented as empty (part 2)                        *)
 HOut(x) == <<"h", x>>
 SUOuts(e) == {<<"su", e.id, t>> : t \in IF e.from = "own" THEN {"none", "own"} ELSE {e.from}}
+(* the stanza error a handler RETURNED, sent by the session as the error reply to the *)
+(* request (Serve's documentation): an automatic reply like the default one, with     *)
+(* whatever condition the handler chose                                               *)
+SEOuts(e) == {<<"se", e.id, t>> : t \in IF e.from = "own" THEN {"none", "own"} ELSE {e.from}}
 
 (* Whether the program runs at all. "plain": the handler is given to Serve directly.  *)
 (* "muxunreg": a multiplexer without a handler for the element - nothing of the      *)
@@ -163,8 +174,11 @@ RepliesR(e, p, ran) ==
             ELSE IF C07_Needs(e) THEN withSU
             ELSE IF C07_Free(e) THEN {base} \cup withSU
             ELSE {base}
+      withSE == {Append(base, se) : se \in SEOuts(e)}
+      term == {Append(w, <<"serr">>) : w \in ok \cup {base}}    \* terminated by a stream error
   IN IF HRet(p, ran) = "ok" THEN ok
-     ELSE {Append(w, <<"serr">>) : w \in ok \cup {base}}    \* terminated by a stream error
+     ELSE IF HRet(p, ran) = "stanzaerr" /\ ~has /\ (C07_Needs(e) \/ C07_Free(e)) THEN term \cup withSE
+     ELSE term
 (* a stanza qualified by a stanza namespace that the stream header did not declare   *)
 (* may also be refused outright: the stream is terminated with a stream error before *)
 (* anything is handled                                                               *)
@@ -184,7 +198,18 @@ C07_RepliesSeq(items, mode) ==
        IN {w : w \in {x \in first : Ends(x)}} \cup
           {w \o r : w \in {x \in first : ~Ends(x)}, r \in rest}
 
-CONSTANTS C7Items,   \* set of (element, program) pairs the design check feeds
+(* what the handler left in the start element it was handed *)
+Mutated(e, mut) ==
+  CASE mut = "type" -> [e EXCEPT !.type = "result"]
+    [] mut = "name" -> [e EXCEPT !.kind = "msg"]
+    [] mut = "id" -> [e EXCEPT !.id = OtherId(e.id)]
+    [] mut = "from" -> [e EXCEPT !.from = IF e.from = "domain" THEN "peer" ELSE "domain"]
+    [] mut = "clear" -> [e EXCEPT !.type = "", !.id = "none", !.from = "none"]
+    [] OTHER -> e
+
+CONSTANTS C7Dev,     \* named deviations of part 1 ({} in design checks): "StartAfterHandler" = the default reply is
+                     \* decided and built from the start element as the handler left it
+          C7Items,   \* set of (element, program) pairs the design check feeds
           C7Modes,   \* modes explored
           C7Len      \* number of elements per run
 
@@ -199,7 +224,7 @@ VARIABLES c7mode,   \* "plain" | "muxreg" | "muxunreg"
 c7vars == <<c7mode, c7in, c7done, c7parts, c7cur, c7pc, c7k, c7ran, c7wrote, c7out>>
 C7Wire == Cat(c7parts) \o c7out
 
-NoItem == [e |-> El7("none", "", "none", "none", "none", "own", "none"), p |-> Prog7("none", "none", "ok")]
+NoItem == [e |-> El7("none", "", "none", "none", "none", "own", "none"), p |-> Prog7("none", "none", "ok", "none")]
 
 C07_Init ==
   /\ c7mode \in C7Modes /\ c7in \in UNION {[1..n -> C7Items] : n \in 1..C7Len}
@@ -233,7 +258,7 @@ C07_Write ==
 
 C07_Return ==
   /\ c7pc = "handler" /\ c7k > Len(HWrites(c7cur.e, c7cur.p, c7ran))
-  /\ c7pc' = IF HRet(c7cur.p, c7ran) = "ok" THEN "after" ELSE "fail"
+  /\ c7pc' = CASE HRet(c7cur.p, c7ran) = "ok" -> "after" [] HRet(c7cur.p, c7ran) = "stanzaerr" -> "sfail" [] OTHER -> "fail"
   /\ UNCHANGED <<c7mode, c7in, c7done, c7parts, c7cur, c7k, c7ran, c7wrote, c7out>>
 
 Finish(out, pc) ==
@@ -244,23 +269,30 @@ Finish(out, pc) ==
 (* handler did not answer (for the cases the property leaves open: either way)       *)
 C07_Default ==
   /\ c7pc = "after"
-  /\ \/ /\ ~c7wrote /\ (C07_Needs(c7cur.e) \/ C07_Free(c7cur.e))
-        /\ \E su \in SUOuts(c7cur.e) : Finish(Append(c7out, su), "idle")
-     \/ /\ (c7wrote \/ ~C07_Needs(c7cur.e))
+  /\ LET e == IF "StartAfterHandler" \in C7Dev /\ c7ran THEN Mutated(c7cur.e, c7cur.p.mut) ELSE c7cur.e IN
+     \/ /\ ~c7wrote /\ (C07_Needs(e) \/ C07_Free(e))
+        /\ \E su \in SUOuts(e) : Finish(Append(c7out, su), "idle")
+     \/ /\ (c7wrote \/ ~C07_Needs(e))
         /\ Finish(c7out, "idle")
+
+(* the handler returned a stanza error: it is sent as the error reply of a request   *)
+(* that has none yet - or the stream is terminated like for any other error          *)
+C07_StanzaError ==
+  /\ c7pc = "sfail" /\ ~c7wrote /\ (C07_Needs(c7cur.e) \/ C07_Free(c7cur.e))
+  /\ \E se \in SEOuts(c7cur.e) : Finish(Append(c7out, se), "idle")
 
 (* the handler failed: the stream is terminated with a stream error (a default reply *)
 (* before it is permitted, not required)                                             *)
 C07_StreamError ==
-  /\ c7pc = "fail"
+  /\ c7pc \in {"fail", "sfail"}
   /\ \/ /\ ~c7wrote /\ (C07_Needs(c7cur.e) \/ C07_Free(c7cur.e))
         /\ \E su \in SUOuts(c7cur.e) : Finish(c7out \o <<su, <<"serr">> >>, "failed")
      \/ Finish(Append(c7out, <<"serr">>), "failed")
 
-C07_Next == C07_Take \/ C07_Refuse \/ C07_CloseTag \/ C07_Write \/ C07_Return \/ C07_Default \/ C07_StreamError
+C07_Next == C07_Take \/ C07_Refuse \/ C07_CloseTag \/ C07_Write \/ C07_Return \/ C07_Default \/ C07_StanzaError \/ C07_StreamError
 
 (* --- properties of part 1 --- *)
-IsSU(o) == o[1] = "su"
+IsSU(o) == o[1] \in {"su", "se"}        \* a reply the session added by itself
 IsHReply(o, e) == o[1] = "h" /\ C07_IsReply(o[2], e)
 Idx(part, P(_)) == {i \in 1..Len(part) : P(part[i])}
 
@@ -289,13 +321,13 @@ C07_NoReplyToReply ==
 C07_Addressed ==
   \A i \in 1..Len(c7done) : \A a \in Idx(c7parts[i], IsSU) :
     LET e == c7done[i].e  su == c7parts[i][a]
-    IN /\ su \in SUOuts(e)
+    IN /\ su \in SUOuts(e) \cup SEOuts(e)
        /\ su[2] = e.id
        /\ (e.from \notin {"none", "own"} => su[3] = e.from)
        /\ (e.from = "none" => su[3] = "none")
 (* the reply-seen flag means: the handler wrote THE reply *)
 C07_FlagExact ==
-  c7pc \in {"handler", "after", "fail"} =>
+  c7pc \in {"handler", "after", "fail", "sfail"} =>
     (c7wrote <=> Idx(c7out, LAMBDA o : IsHReply(o, c7cur.e)) # {})
 (* the machine produces exactly the outputs the reference function allows *)
 C07_IsReplies ==
